@@ -17,6 +17,7 @@ CHECKS = {
     "C02": ("c02", "model_checking"),
     "C07": ("c07", "model_checking"),
     "C10": ("c10", "model_checking"),
+    "C15": ("c15", "model_checking"),
     "C20": ("c20", "model_checking"),
 }
 
